@@ -4,14 +4,16 @@ CONSTANTS MaxSteps, Emit
 VARIABLE hist
 mavars == <<avars, hist>>
 
-ValidVec == [k \in 1 .. Unknown + 1 |-> Valid(k - 1)]
-Step(rec) == hist' = Append(hist, rec @@ [res |-> lastRes', valid |-> ValidVec'])
+ValidVec == [k \in 1 .. Plus + 1 |-> Valid(k - 1)]
+AdminVec == [k \in 1 .. Plus + 1 |-> IsAdmin(k - 1)]
+Step(rec) == hist' = Append(hist, rec @@ [res |-> lastRes', valid |-> ValidVec', admin |-> AdminVec'])
 
 MAInit == AInit /\ hist = <<>>
 MANext ==
   /\ Len(hist) < MaxSteps
-  /\ \/ \E as \in {Admin, 1, Unknown} : Create(as) /\ Step([op |-> "create", as |-> as])
-     \/ \E as \in {Admin, 1}, x \in Toks : Revoke(as, x) /\ Step([op |-> "revoke", as |-> as, x |-> x])
+  /\ \/ \E as \in {Admin, 1, Unknown} \cup (IF gen = 1 THEN {Admin2} ELSE {Prefix}) : Create(as) /\ Step([op |-> "create", as |-> as])
+     \/ \E as \in {CurAdmin, 1} \cup (IF gen = 1 THEN {Admin} ELSE {Plus}), x \in 0 .. Unknown : Revoke(as, x) /\ Step([op |-> "revoke", as |-> as, x |-> x])
+     \/ (RotateA /\ Step([op |-> "rotate"]))
      \/ (Len(hist) > 0 /\ hist[Len(hist)].op # "restart" /\ RestartA /\ Step([op |-> "restart"]))
 MASpec == MAInit /\ [][MANext]_mavars
 AView == avars
